@@ -129,6 +129,8 @@ Definition initiate_connection : CM unit :=
 Definition api_send_headers (sid : Z) (hs : list hitem) (L : Z) (end_stream : bool)
            (pw pd : option Z) (pe : option bool) : CM unit :=
   c0 <- get ;;
+  (* fix 12650a7: only clients open streams by sending headers *)
+  (if client c0 then ret tt else (get_stream_by_id sid ;;; ret tt)) ;;;
   (if dmem sid (c_streams c0) then ret tt
    else n <- open_outbound_streams ;;
         c <- get ;;
@@ -374,6 +376,9 @@ Definition recv_headers (sid : Z) (es : bool) (p : option prio) (d : hdec) : CM 
   hs <- decode_headers d ;;
   cfsm CI_RECV_HEADERS ;;;
   c1 <- get ;;
+  (* fix 09dbf89: a client refuses HEADERS that would open a server-initiated stream *)
+  (if g_recv_headers_unpromised sid (c_hi_in c1) (client c1) (negb (dmem sid (c_streams c1)))
+   then lift_res perr else ret tt) ;;;
   get_or_create_stream sid (b2z (negb (client c1))) ;;;
   evs <- with_stream sid (receive_headers (c_cfg c1) hs es) ;;
   match p with
